@@ -30,7 +30,7 @@ MANIFEST = dict(
         "linesearch_methods_monotone_cg_modelled (CG with the modelled wolfecubic or backtracking on every objective with a monotone gradient, i.e. every convex objective incl. all strictly convex quadratics: cg_direction_nonascent shows that periodic reset, restart branch and Dai-Yuan update give non-ascent directions whenever d'(g - g_old) >= 0, with the identity g'd_new = |g|^2 (g_old'd)/(d'(g-g_old)); wolfecubic_ray/backtracking_ray: only non-negative step lengths are tried); "
         "cg_negative_curvature_witness (without the curvature hypothesis the Dai-Yuan direction can be an ascent direction: the C++ tests |d'(g-g_old)|, not its sign), linesearch_methods_monotone_partial (any model, any line search: one step, given a non-ascent direction); "
         "(3) TrustRegionNewton: trn_step_no_increase_partial (the acceptance rule rho >= minImprovementRatio >= 0 never increases the objective when the sub-problem predicts no increase), trn_cg_inside / trn_cg_interior_inside (every non-boundary exit of CG-Steihaug returns a step strictly inside the radius: the loop tests before it moves), trn_border_on_sphere (boundary exits land on the sphere |z + tau d| = delta when sqrt is exact at the discriminant); "
-        "(4) box constraints: box_feasible_inv_rprop, coords_ok, box_direction_feasible_partial + box_direction_touching_witness (F-C10-12), box_direction_descent, box_direction_nonzero and the *_repaired variants (selected from the source by translate/lbfgs_box.py); lbfgs_multBInv_pos discharges the hypothesis p0'B^-1p0 > 0 of box_direction_descent when no coordinate is blocked; "
+        "(4) box constraints: box_feasible_inv_rprop, coords_ok, box_direction_feasible_partial + box_direction_touching_witness (F-C10-12), box_direction_descent, box_direction_nonzero and the *_repaired variants (selected from the source by translate/lbfgs_box.py); lbfgs_multBInv_pos discharges the hypothesis p0'B^-1p0 > 0 of box_direction_descent when no coordinate is blocked; box_linesearch_feasible (x in the box, x + d in the box, initial step in [0,1] => the point returned by the backtracking line search is in the box, exactly: composes with box_direction_feasible_* to one-step feasibility of box-constrained L-BFGS); "
         "(5) save/restore: sd/adam/rprop/ls/trn_step_reads_archived (member lists regenerated from the C++ read/write bodies by translate/opt_fields.py on every run), resume_same_iterates; "
         "(6) wolfecubic as shipped reads its bracket arrays uninitialised when the bracketing loop runs out of iterations: the model has their content as a parameter, wolfecubic_contract_partial (hypothesis WolfeBracketed) + wolfecubic_uninitialised_witness (finding F-C10-16); translate/linesearch.py recognises which declaration the tree contains and pins the text of wolfecubic and the constants of wolfecubic/dlinmin. "
         "Tie on every run: SteepestDescent/Adam/Rprop bit for bit (Float instance of the same definitions) and, for every C++ step that raised no FE_INEXACT, exactly with the Rat instance; all 8 Rprop variants on narrow boxes around the minimiser; "
